@@ -10,6 +10,8 @@
     V subaccount <0|1> <0|1>
     V reward | V market | V ovm
                                             → v <Validate> <per-field verdicts> <update, right authority> <update, wrong authority>
+                                              x <MsgUpdateParams.ValidateBasic> <GenesisState.Validate> <InitGenesis does not panic>
+    L <module> <i> <the fields of a V line>  → l <0|1>         field i alone, through the legacy ParameterChangeProposal
     P / M / B                               as in Driver.Mint (P prints `v`; B runs BeginBlocker of the tree selected by CFG)
     G <W|D> <wagerEnabled> <depositEnabled> → g <0|1>          does the subaccount switch let the message through
 
@@ -50,12 +52,38 @@ def parsePhasesOpt : List String → Option (List Mint.Phase)
   | _ => none
 
 /-- verdict line: a field that could not be decoded (nil / out of range) fails, and so does `Validate` -/
-def verdict (decoded : List Bool) (validate : Bool) (fields : List Bool) : String :=
+def verdict (decoded : List Bool) (validate : Bool) (fields : List Bool) : List String :=
   let fs := (decoded.zip fields).map (fun x => x.1 && x.2)
   let ok := decoded.all id
   let v := ok && validate
   let acc := v && fs.all id
-  s!"v {b01 v} {bits fs} {b01 (updateOk true acc)} {b01 (updateOk false acc)}"
+  -- x: MsgUpdateParams.ValidateBasic and GenesisState.Validate are Params.Validate; InitGenesis runs the field validators
+  [s!"v {b01 v} {bits fs} {b01 (updateOk true acc)} {b01 (updateOk false acc)}", s!"x {b01 v} {b01 v} {b01 acc}"]
+
+/-- the per-field verdicts of a `V` line, for the legacy ParameterChangeProposal path -/
+def fieldBits (cfg : Cfg) : List String → Option (List Bool)
+  | "mint" :: denom :: bpy :: ex :: _n :: rest =>
+    let bpyO := (optInt bpy).filter (fun v => decide (-MintParams.maxInt64 - 1 ≤ v) && decide (v ≤ MintParams.maxInt64))
+    let exO := optInt ex
+    let phO := parsePhasesOpt rest
+    let m : MintParams := { denom := parseDenom denom,
+                            p := { blocksPerYear := bpyO.getD 0, exclude := exO.getD 0, phases := phO.getD [] } }
+    some (([true, bpyO.isSome, phO.isSome, exO.isSome].zip (MintParams.fields cfg m)).map (fun x => x.1 && x.2))
+  | ["bet", batch, maxq, mn, fee] =>
+    let bO := optNat batch u32max; let qO := optNat maxq u32max; let mO := optInt mn; let fO := optInt fee
+    let b : BetParams := { batch := bO.getD 0, maxQuery := qO.getD 0, minAmount := mO.getD 0, fee := fO.getD 0 }
+    some (([bO.isSome, qO.isSome, mO.isSome && fO.isSome].zip (BetParams.fields cfg b)).map (fun x => x.1 && x.2))
+  | ["house", mn, fee, maxw] =>
+    let mO := optInt mn; let fO := optInt fee; let wO := optNat maxw u64max
+    let h : HouseParams := { minDeposit := mO.getD 0, fee := ⟨fO.getD 0⟩, maxWithdrawals := wO.getD 0 }
+    some (([mO.isSome, fO.isSome, wO.isSome].zip (HouseParams.fields cfg h)).map (fun x => x.1 && x.2))
+  | ["orderbook", mp, batch, thr] =>
+    let pO := optNat mp u64max; let bO := optNat batch u64max; let tO := optNat thr u64max
+    let o : ObParams := { maxParticipations := pO.getD 0, batch := bO.getD 0, threshold := tO.getD 0 }
+    some (([pO.isSome, bO.isSome, tO.isSome].zip (ObParams.fields cfg o)).map (fun x => x.1 && x.2))
+  | ["subaccount", w, d] =>
+    some (SubParams.fields cfg { wagerEnabled := w == "1", depositEnabled := d == "1" })
+  | _ => none
 
 def showMinter (m : Mint.Minter) : String :=
   s!"m {m.inflation.raw} {m.phaseStep} {m.phaseProvisions.raw} {m.truncated.raw}"
@@ -78,26 +106,30 @@ def step (s : St) (line : String) : St × List String :=
     let phO := parsePhasesOpt rest
     let m : MintParams := { denom := parseDenom denom,
                             p := { blocksPerYear := bpyO.getD 0, exclude := exO.getD 0, phases := phO.getD [] } }
-    (s, [verdict [true, bpyO.isSome, phO.isSome, exO.isSome] (MintParams.validate cfg m) (MintParams.fields cfg m)])
+    (s, verdict [true, bpyO.isSome, phO.isSome, exO.isSome] (MintParams.validate cfg m) (MintParams.fields cfg m))
   | ["V", "bet", batch, maxq, mn, fee] =>
     let bO := optNat batch u32max; let qO := optNat maxq u32max; let mO := optInt mn; let fO := optInt fee
     let b : BetParams := { batch := bO.getD 0, maxQuery := qO.getD 0, minAmount := mO.getD 0, fee := fO.getD 0 }
     let cDec := mO.isSome && fO.isSome
-    (s, [verdict [bO.isSome, qO.isSome, cDec] (BetParams.validate cfg b) (BetParams.fields cfg b)])
+    (s, verdict [bO.isSome, qO.isSome, cDec] (BetParams.validate cfg b) (BetParams.fields cfg b))
   | ["V", "house", mn, fee, maxw] =>
     let mO := optInt mn; let fO := optInt fee; let wO := optNat maxw u64max
     let h : HouseParams := { minDeposit := mO.getD 0, fee := ⟨fO.getD 0⟩, maxWithdrawals := wO.getD 0 }
-    (s, [verdict [mO.isSome, fO.isSome, wO.isSome] (HouseParams.validate cfg h) (HouseParams.fields cfg h)])
+    (s, verdict [mO.isSome, fO.isSome, wO.isSome] (HouseParams.validate cfg h) (HouseParams.fields cfg h))
   | ["V", "orderbook", mp, batch, thr] =>
     let pO := optNat mp u64max; let bO := optNat batch u64max; let tO := optNat thr u64max
     let o : ObParams := { maxParticipations := pO.getD 0, batch := bO.getD 0, threshold := tO.getD 0 }
-    (s, [verdict [pO.isSome, bO.isSome, tO.isSome] (ObParams.validate cfg o) (ObParams.fields cfg o)])
+    (s, verdict [pO.isSome, bO.isSome, tO.isSome] (ObParams.validate cfg o) (ObParams.fields cfg o))
   | ["V", "subaccount", w, d] =>
     let sp : SubParams := { wagerEnabled := w == "1", depositEnabled := d == "1" }
-    (s, [verdict [true, true] (SubParams.validate cfg sp) (SubParams.fields cfg sp)])
-  | ["V", "reward"] => (s, [verdict [] emptyParamsAccepted []])
-  | ["V", "market"] => (s, [verdict [] emptyParamsAccepted []])
-  | ["V", "ovm"] => (s, [verdict [] emptyParamsAccepted []])
+    (s, verdict [true, true] (SubParams.validate cfg sp) (SubParams.fields cfg sp))
+  | ["V", "reward"] => (s, verdict [] emptyParamsAccepted [])
+  | ["V", "market"] => (s, verdict [] emptyParamsAccepted [])
+  | ["V", "ovm"] => (s, verdict [] emptyParamsAccepted [])
+  | "L" :: module :: i :: rest =>
+    match fieldBits cfg (module :: rest) with
+    | some fs => (s, [s!"l {b01 (fs.getD (parseNat i) false)}"])
+    | none => (s, ["bad-op " ++ line])
   | ["G", kind, w, d] =>
     let sp : SubParams := { wagerEnabled := w == "1", depositEnabled := d == "1" }
     (s, [s!"g {b01 (if kind == "W" then sp.wagerEnabled else sp.depositEnabled)}"])
